@@ -432,7 +432,7 @@ Proof.
   - assert (H: forallb (fun p => negb (is_fast_packet_pgn no_lists p)) ref_single = true) by (vm_compute; reflexivity).
     intros p Hp. apply negb_true_iff. exact (proj1 (forallb_forall _ _) H p Hp).
   - intros p Hp. unfold is_fast_packet_pgn.
-    assert (E: is_proprietary_fast_packet p = true) by exact Hp.
+    assert (E: is_proprietary_fast_packet p = true) by (unfold ref_prop_fast in Hp; unfold is_proprietary_fast_packet; lia).
     rewrite E. rewrite !orb_true_r. reflexivity.
   - intros p Hp.
     assert (HT: forallb (fun q => negb (ref_prop_single q) && negb (q =? 0))
@@ -444,9 +444,7 @@ Proof.
     rewrite !existsb_app in Hex. apply orb_false_iff in Hex. destruct Hex as [H1 H2]. apply orb_false_iff in H2. destruct H2 as [H2 H3].
     unfold is_fast_packet_pgn, is_fast_packet_system, is_mandatory_fast_packet, is_default_fast_packet. rewrite H1, H2, H3.
     cbn [no_lists fp0 fp1 in_list is_none andb orb].
-    unfold ref_prop_single in Hp. unfold is_proprietary_fast_packet.
-    destruct (Z.eqb_spec p 126720); destruct (Z.leb_spec 130816 p); destruct (Z.leb_spec p 131071);
-      destruct (Z.eqb_spec p 61184); destruct (Z.leb_spec 65280 p); destruct (Z.leb_spec p 65535); try reflexivity; try discriminate; lia.
+    unfold ref_prop_single in Hp. unfold is_proprietary_fast_packet. lia.
 Qed.
 Print Assumptions classification.
 
